@@ -6,6 +6,8 @@ from fractions import Fraction
 from vmon import dists as D
 from vmon import gens as G
 from vmon.gens import THOROUGH_SCALE as TS
+
+TS = TS * 6          # this check is cheap per case: the thorough tier explores six times the common random workload
 from vmon import oracles as O
 
 PID = "C05"
